@@ -350,7 +350,7 @@ func (g *gen) eventVariants(r *cv.Rand, e *Entry, malformed bool, full bool) {
 	}
 	// surplus topics are ignored
 	extra := append(append([]hexb{}, topics...), hexb(r.Bytes(32)))
-	sp := &Spec{Kind: "event", Class: "surplus-topic:" + an, Entry: e, Topics: extra, Data: data}
+	sp := &Spec{Kind: "event", Class: "surplus-topic:" + an, Entry: e, Topics: extra, Data: data, Lenient: true}
 	if exact {
 		sp.Expect, sp.ExpVals = "values", exp
 	}
@@ -383,7 +383,7 @@ func (g *gen) eventVariants(r *cv.Rand, e *Entry, malformed bool, full bool) {
 		// the same log offered to the anonymous twin, and the anonymous log offered to the named event
 		twin := cloneEntry(e)
 		twin.Anonymous = true
-		g.add(&Spec{Kind: "event", Class: "named-log-to-anonymous-twin", Entry: twin, Topics: topics, Data: data})
+		g.add(&Spec{Kind: "event", Class: "named-log-to-anonymous-twin", Entry: twin, Topics: topics, Data: data, Lenient: true})
 	} else {
 		twin := cloneEntry(e)
 		twin.Anonymous = false
@@ -406,7 +406,7 @@ func (g *gen) eventVariants(r *cv.Rand, e *Entry, malformed bool, full bool) {
 			} else {
 				tt[k] = append(append([]byte{}, topics[k]...), 0x5a)
 			}
-			g.add(&Spec{Kind: "event", Class: fmt.Sprintf("topic-width:%d", w), Entry: e, Topics: tt, Data: data})
+			g.add(&Spec{Kind: "event", Class: fmt.Sprintf("topic-width:%d", w), Entry: e, Topics: tt, Data: data, Lenient: true})
 		}
 	}
 	// data truncated / empty / extended
@@ -422,7 +422,7 @@ func (g *gen) eventVariants(r *cv.Rand, e *Entry, malformed bool, full bool) {
 		}
 		g.add(&Spec{Kind: "event", Class: "data-empty", Entry: e, Topics: topics, Data: nil, Expect: "refuse"})
 	}
-	ext := &Spec{Kind: "event", Class: "data-extended", Entry: e, Topics: topics, Data: append(append([]byte{}, data...), r.Bytes(32)...)}
+	ext := &Spec{Kind: "event", Class: "data-extended", Entry: e, Topics: topics, Data: append(append([]byte{}, data...), r.Bytes(32)...), Lenient: true}
 	if exact && len(data) > 0 {
 		ext.Expect, ext.ExpVals = "values", exp
 	}
